@@ -27,6 +27,7 @@ impl Check for C01 {
             "probe.deep-nesting-run",
             "probe.deep-nesting>200",
             "probe.fatal-error",
+            "probe.giant-block>=65536-children",
             "probe.long-run",
             "probe.long-run-of-millions-of-steps",
             "probe.long-run-output>64KiB",
@@ -64,6 +65,10 @@ impl Check for C01 {
         if run == 11 {
             // one very long evaluation (millions of steps) compared with the model at the end
             return vmgen::gen_very_long(g, if tier == Tier::Quick { 3_000_000 } else { 10_000_000 });
+        }
+        if run % 40_000 == 13 {
+            // one giant block (>= 65 536 children)
+            return vmgen::gen_giant(g);
         }
         if run % 2500 == 1249 {
             // a long execution of a looping program, compared with a model-only run at the end
